@@ -1,0 +1,8 @@
+//go:build verif
+
+package shared
+
+// NewChunkIDGeneratorForVerif exposes the chunk ID generator to the verification harness
+func NewChunkIDGeneratorForVerif(suffix string) func() string {
+	return newChunkIDGenerator(suffix).Generate
+}
